@@ -262,6 +262,41 @@ func runMsgTree(r *hx.R, n int, w *hx.W, _ []string) error {
 			return []mnode{{kind: "exec", who: o, inner: []mnode{{kind: "grant", who: o, arg: x, gkind: "eth"}}}}
 		}
 	}
+	// decorate puts harmless siblings (a send, or a self-exec around a send, by the signer the list requires) before and after
+	// the messages of a list, at every level: a guard that stops scanning a list early is only visible with such siblings
+	var decorate func(list []mnode, signer int) []mnode
+	decorate = func(list []mnode, signer int) []mnode {
+		var out []mnode
+		harmless := func(who int) mnode {
+			if r.Chance(1, 2) {
+				return mnode{kind: "send", who: who}
+			}
+			return mnode{kind: "exec", who: who, inner: []mnode{{kind: "send", who: who}}}
+		}
+		for _, m := range list {
+			who := signer
+			if who < 0 {
+				who = m.who
+				if m.kind == "eth" {
+					who = 0
+				}
+			}
+			if r.Chance(1, 3) {
+				out = append(out, harmless(who))
+			}
+			switch m.kind {
+			case "exec":
+				m.inner = decorate(m.inner, m.who)
+			case "wasm":
+				m.inner = decorate(m.inner, 3)
+			}
+			out = append(out, m)
+			if r.Chance(1, 5) {
+				out = append(out, harmless(who))
+			}
+		}
+		return out
+	}
 	signerOf := func(m mnode) int {
 		switch m.kind {
 		case "eth":
@@ -283,6 +318,9 @@ func runMsgTree(r *hx.R, n int, w *hx.W, _ []string) error {
 			var nodes []mnode
 			if r.Chance(3, 5) {
 				nodes = aimed()
+				if r.Chance(1, 2) {
+					nodes = decorate(nodes, -1)
+				}
 			} else {
 				for i := 0; i < nm; i++ {
 					nodes = append(nodes, gen(0))
